@@ -70,7 +70,7 @@ fn parse_args() -> Args {
         }
     }
     if a.out.is_empty() {
-        a.out = format!("/verif/evidence/{}.e1.json", a.prop);
+        a.out = format!("{}/evidence/{}.e1.json", symlab::root(), a.prop);
     }
     a
 }
@@ -123,21 +123,6 @@ fn real_run_on(order: &str, prop: &str, p: &Params, seed: u64, model: &[(String,
             (c, f, "frost-ristretto255")
         }
     }
-}
-
-fn load_known(prop: &str) -> Vec<(String, String)> {
-    // (status, match substring)
-    let mut out = vec![];
-    if let Ok(s) = std::fs::read_to_string("/verif/known_findings.json") {
-        if let Ok(v) = serde_json::from_str::<serde_json::Value>(&s) {
-            for f in v["findings"].as_array().cloned().unwrap_or_default() {
-                if f["property"].as_str() == Some(prop) {
-                    out.push((f["status"].as_str().unwrap_or("").to_string(), f["match"].as_str().unwrap_or("\u{0}").to_string()));
-                }
-            }
-        }
-    }
-    out
 }
 
 fn main() {
